@@ -48,6 +48,15 @@ CLAIMED = {
         'every created issue is described and added. Necessary conditions of "every rule violation is reported"; rule predicates and false positives are not decided.',
    note='Trusted: clang AST/CFG; the frozen traversal table and rule floor (sa/tables/validator_rules.json).',
    ref='DESIGN.md section 4, C04'),
+ 'C05': dict(
+   technique='static analysis: enum-mapping exhaustiveness over the internal->public type switches, decision-table extraction of the model type from CFG branch facts, counter/list agreement and must-pass rules on index assignment, search-dominates-create rule',
+   text='Decides ONLY the bookkeeping clauses of C05 that are visible in the shape of AnalyserImpl::analyseModel: every internal variable/equation type is mapped to the public type of the same stem or reported as invalid (no silent default); '
+        'the model type is the documented function of (variable of integration?, NLA system?) and of (under-, over-constrained?); state/variable indices start at 0, advance once per created variable and are chosen by the same test as the list that stores the variable; '
+        'one internal variable per class of connected variables (creation only after a complete equivalence search, and recorded); an equation lists all its unknown variables. '
+        'The heart of the property - what each equation computes in the iterative check loop, the resulting classification, dependency wiring and independence of document order - quantifies over runtime fixpoints and is NOT decided; '
+        'a change there is invisible to this check.',
+   note='Trusted: clang AST/CFG. Partial claim on purpose: the clauses are necessary conditions of "a valid AnalyserModel is well formed"; the classification clauses of C05 have no sound static argument in reach (see DESIGN.md section 4, C05).',
+   ref='DESIGN.md section 4, C05 and section 6.8'),
  'C06': dict(
    technique='static analysis: interprocedural provenance (origin) analysis of every mutated entity in the reach of flattenModel, CFG gate/loop-exit rules, subtree-traversal completeness on the call graph, accumulator-flag monotonicity, rename-then-update ordering, borrowed clone() coverage/deep-copy rules',
    text='(P) Every expression denoting an entity in the 280 functions flattenModel reaches gets a set of origins (created here / library model / import source / parameter), propagated through locals, containers, getters and function summaries; '
@@ -155,10 +164,7 @@ CLAIMED = {
 
 NOT_YET = {}
 
-NA = {
- 'C05': 'The statement is about the fixpoint reached by the analyser (classification, index density, dependency wiring, permutation invariance): runtime object graphs '
-        'with no structural necessary condition that can be stated without freezing the algorithm; the two structural clauses in its anchors (validator gate, state reset at entry) are enforced under C01 and C12.',
-}
+NA = {}
 
 
 def main():
